@@ -20,9 +20,14 @@ JOE_RULE = (
     "seeded scenarios run against the real sse.Joe built with -tags verif in child processes (a crash is an observation): 1-4 (thorough: 8) "
     "subscribers, 1-3 publisher threads, 1-3 shutdown callers; topic sets disjoint/equal/overlapping in one or many topics/DefaultTopic; "
     "writer scripts failing at the k-th Send or Flush, with and without cancelling the own context inside the failing call; cancellation "
-    "before start / after registration / after m events; the scripted errors come in ten characters (plain, Temporary(), Timeout(), wrapping "
-    "os.ErrDeadlineExceeded / context.DeadlineExceeded / context.Canceled, *net.OpError, and the subscriber's own context cancelled inside the "
-    "call with ctx.Err() returned as it is / wrapped with %w / wrapped in a scripted value), projected by identity; a failed subscriber whose "
+    "before start / after registration / after m events; the scripted errors come in sixteen characters (plain, Temporary(), Timeout(), wrapping "
+    "os.ErrDeadlineExceeded / context.DeadlineExceeded / context.Canceled, *net.OpError, the subscriber's own context cancelled inside the "
+    "call with ctx.Err() returned as it is / wrapped with %w / wrapped in a scripted value, values wrapping sse.ErrNoTopic / sse.ErrProviderClosed / "
+    "sse.ErrUnexpectedEOF / io.EOF, values whose As(any) / Is(error) method answers true to everything), projected by identity, at every writer / Put / "
+    "Replay site (sweep: character x site); in one scenario of three of every class the topic numbers are spelled as names of another shape "
+    "(63, 64, 65, 127..129, 200, 255..257, 1000, 5000 bytes differing in their last or first byte only, NUL / UTF-8 / blanks inside, sizes mixed in one "
+    "scenario, names that are prefixes of each other; topic 0 is always the empty name = DefaultTopic) and every spelling runs through the topic-shape "
+    "class - topics are opaque to model and monitors; a failed subscriber whose "
     "unsubscription still reaches the loop, then further publishes to the remaining ones; one scenario in three that does not script the "
     "replayer runs against &sse.Joe{} (Replayer nil: the noopReplayer's unobservable Put/Replay are silent ok steps of the trace check); "
     "replayer Put/Replay verdict scripts (ok, error, panic; a Put error alone or together with the message) and strictly sequential fault "
@@ -42,11 +47,16 @@ JOE_RULE = (
     "non-trivial = every scenario (each executes the real provider); distinct = distinct (scenario, trace) pairs"
 )
 
-FAMILIES["joe_c06"] = {"impl_family": "joe", "timeout_quick": 300, "timeout_thorough": 3000}
-FAMILIES["joe_c07"] = {"impl_family": "joe", "timeout_quick": 300, "timeout_thorough": 3000}
-FAMILIES["joe_c03"] = {"impl_family": "joe", "timeout_quick": 300, "timeout_thorough": 3000}
-FAMILIES["joe_c17"] = {"impl_family": "joe", "timeout_quick": 300, "timeout_thorough": 3000}
+# time limits: on the unchanged code the quick tier of `joe` takes about 11 s; a change that strands calls costs the 10 s deadline per
+# stuck scenario (the harness output is buffered: a run cut short by the limit loses its cases), hence the framework's default 600 s
+FAMILIES["joe_c06"] = {"impl_family": "joe", "timeout_quick": 600, "timeout_thorough": 3000}
+FAMILIES["joe_c07"] = {"impl_family": "joe", "timeout_quick": 600, "timeout_thorough": 3000}
+FAMILIES["joe_c03"] = {"impl_family": "joe", "timeout_quick": 600, "timeout_thorough": 3000}
+FAMILIES["joe_c17"] = {"impl_family": "joe", "timeout_quick": 600, "timeout_thorough": 3000}
 FAMILIES["joe_c04"] = {"impl_family": "joe_replay", "timeout_quick": 300, "timeout_thorough": 3000}
+# C03 on the resume scenarios (the REAL replayers make the Send / Flush calls of a replay on Joe's goroutine): the C03 monitor -
+# "every Send is followed by a Flush before Joe goes idle" counts the Sends of a replay too - on the joe_replay scenarios
+FAMILIES["joe_c03_resume"] = {"impl_family": "joe_replay", "model_family": "joe_c03", "timeout_quick": 300, "timeout_thorough": 3000}
 
 PROPS["C06"] = {
     "families": ["joe_c06"],
@@ -88,7 +98,7 @@ PROPS["C07"] = {
 }
 
 PROPS["C03"] = {
-    "families": ["joe_c03"],
+    "families": ["joe_c03", "joe_c03_resume"],
     "level_text": (
         "Proof on the LTS of joe.go, all label sequences: for every subscriber i the Send calls the fan-out made on its writer are exactly "
         "filter (topics intersect) (order[reg_i .. upto_i)) - the messages of the single global accept order between its registration and its "
@@ -98,10 +108,13 @@ PROPS["C03"] = {
         "subscription removed through its cancellation got every matching message accepted before the cancellation was requested. History "
         "invariant proved with one lemma per clause over all 33 labels. Model = code validated by trace inclusion (a skipped matching "
         "subscriber or an abandoned round is not a path of the model); the monitor recomputes the due deliveries from the observed "
-        "registration/removal/accept events and compares them with the observed Send sequences, the Put order and the per-thread order."
+        "registration/removal/accept events and compares them with the observed Send sequences, the Put order and the per-thread order; "
+        "'every Send is followed by a Flush before Joe goes idle' is checked on ALL Sends of a writer, those a replayer makes during Replay "
+        "included, which is why the monitor also runs on the resume scenarios against the real FiniteReplayer / ValidReplayer (family joe_c03_resume)."
     ),
-    "level_note": JOE_NOTE + " The topic matcher replay.go topicsIntersect is specified (some common topic), not transcribed; it is exercised by the trace inclusion on topic sets of all shapes.",
-    "rule": JOE_RULE,
+    "level_note": JOE_NOTE + " The topic matcher replay.go topicsIntersect is specified (some common topic), not transcribed; it is exercised by the trace inclusion on topic sets of all shapes and on topic names of all spellings.",
+    "rule": JOE_RULE + "; family joe_c03_resume: the resume scenarios of C04 (real FiniteReplayer / ValidReplayer, resuming subscribers, histories over several "
+            "topics whose newest stored event is not for the subscriber), judged by the C03 monitor",
     "assumptions": ["subscribers' Send/Flush calls return"],
 }
 
@@ -147,7 +160,12 @@ PROPS["C04"] = {
              "the newest / oldest surviving / an expired ID before anything else is stored; messages without data; a prebuilt message object "
              "published again through an ID-assigning replayer before somebody resumes; one Send of the replay failing (every position, errors of "
              "all characters) while every later call would succeed: the subscription must be refused with that error and the writer not called "
-             "again; schedule perturbation as for C03. "
+             "again; never-issued SPELLINGS of numbers as Last-Event-ID (23 forms - leading zeros, sign, blanks and tabs around, 0x / 0b / 0o, "
+             "fraction, exponent, separators, full-width and Arabic-Indic digits - of zero, of buffered, evicted and not yet issued IDs; sweep form x "
+             "{zero, other} x {Finite, Valid}); histories spread over several topics whose newest stored event(s) are not for the resuming "
+             "subscriber; m events expired, k survive, nothing stored since and NOBODY has collected yet (a collection is due: the clock is two "
+             "collection intervals past the last Put), m 1..8 x k 1..5 - around a quarter of the 8 / 16 slots - resumed from every survivor and, "
+             "with automatic IDs, from an expired ID; topic names of all spellings (see C03); schedule perturbation as for C03. "
              "K = trace not a path of the model, S = monitor (replay part vs spec_resume of the "
              "observed Put history, live part, same ID)"),
     "assumptions": ["the presented ID identifies at most one buffered event (IDs unique)",
